@@ -276,6 +276,7 @@ def check_c10(tier, seed):
     sc.corpus()
     plain = sc.build("./simharness", "simharness")
     racebin = sc.build("./simharness", "simharness-race", race=True)
+    vlib.ENV["SIM_REFBIN"] = plain  # replays and minimisation candidates compute their references with the plain build too
     n_runs = 320 if tier == "quick" else 12000
     agg = vlib.run_engine_a(sc, racebin, "c10", tier, seed, n_runs, 10 if tier == "quick" else 25, vlib.NCPU, race=True, refbin=plain, timeout=1800)
     if agg.harness:
